@@ -65,7 +65,7 @@ def build(ctx, linkset, sources, name=None, subdir='src', drop_objects=(), extra
         sp = os.path.join(d, s)
         o = os.path.join(ctx.objdir, name + '-tree-' + s.replace('/', '_') + '.o')
         jobs.append((['ccache', 'g++'] + cxxflags(ctx, subdir) + list(tree_flags) + ['-I' + d, '-I' + os.path.dirname(sp), '-c', sp, '-o', o], o))
-    env = dict(os.environ, CCACHE_DIR=os.path.join(ctx.work, 'ccache'))
+    env = dict(os.environ, CCACHE_DIR=os.environ.get('VERIF_CCACHE', '/var/tmp/squid-verif/ccache'))
 
     def comp(j):
         r = subprocess.run(j[0], capture_output=True, text=True, env=env, cwd=d)
@@ -90,6 +90,8 @@ def build(ctx, linkset, sources, name=None, subdir='src', drop_objects=(), extra
             if t.endswith('.o'):
                 out += objs
             continue
+        if re.match(r'^tests/test[A-Za-z0-9_]*\.o$', t):
+            continue        # further CppUnit test objects of the same link set
         if any(re.search(p, t) for p in drop_objects):
             continue
         out.append(t)
@@ -108,14 +110,15 @@ def build_plain(ctx, sources, name=None, extra_cxx=(), extra_ld=(), objects=()):
     exe = os.path.join(ctx.objdir, name)
     srcs = [s if os.path.isabs(s) else os.path.join(HOME, 'checks', s) for s in sources]
     cmd = ['ccache', 'g++'] + cxxflags(ctx) + list(extra_cxx) + srcs + list(objects) + ['-o', exe] + list(extra_ld)
-    env = dict(os.environ, CCACHE_DIR=os.path.join(ctx.work, 'ccache'))
+    env = dict(os.environ, CCACHE_DIR=os.environ.get('VERIF_CCACHE', '/var/tmp/squid-verif/ccache'))
     r = subprocess.run(cmd, capture_output=True, text=True, env=env)
     if r.returncode != 0:
         raise HarnessError('build failed:\n' + r.stderr[-4000:])
     return exe
 
 
-ASAN_ENV = {'ASAN_OPTIONS': 'detect_leaks=0:abort_on_error=0:halt_on_error=1:allocator_may_return_null=1:detect_odr_violation=0',
+ASAN_ENV = {'ASAN_OPTIONS': 'detect_leaks=0:abort_on_error=0:halt_on_error=1:allocator_may_return_null=1:detect_odr_violation=0:'
+                            'quarantine_size_mb=8:thread_local_quarantine_size_kb=64',
             'UBSAN_OPTIONS': 'halt_on_error=1:print_stacktrace=0'}
 
 
@@ -179,7 +182,10 @@ def violations_from(m, prefix=''):
     vs = []
     for f in m['failures']:
         key = f['key'] or (prefix + f['case'])
-        vs.append(Violation(key, '%s: %s' % (f['case'], f['msg']), {'case': f['case']}))
+        rc = f['case']
+        if ' | replay-case=' in f['msg']:      # E2: "scenario|schedule" is the replay descriptor
+            rc = f['msg'].split(' | replay-case=', 1)[1]
+        vs.append(Violation(key, '%s: %s' % (f['case'], f['msg']), {'case': rc}))
     for c in m['crashes']:
         vs.append(Violation(prefix + 'crash:' + c['case'], 'crash (%s) at case %s %s' % (c['how'], c['case'], m.get('stderr', '')[-800:]),
                             {'case': c['case']}))
